@@ -3,7 +3,7 @@
 Model: coq/Model/GraphM.v (adjacency reading of shortest_path(directed=False, unweighted=True), hop
 metric, components, first largest component, restriction of rows AND columns, pair/collection
 dispatch) on top of Model/MGHM.v (C05).  Each case passes one graph pair in several representations
-(nested lists / dense / CSR / CSC / LIL / csr_array; upper, lower, mixed, symmetric, weighted; relabelled) or a
+(nested lists / dense / csr / csc / lil / coo / dok / dia / bsr matrices and csr / coo / csc sparse arrays; upper, lower, mixed, symmetric, weighted; relabelled) or a
 collection of 1-5 graphs to persim.gromov_hausdorff; distance matrices, warnings, exceptions and
 lower bounds are compared with the model inside Coq (Corr/GraphCorr.v), and the spec (own BFS,
 components, brute-force mGH) is evaluated on the outputs independently of the model."""
@@ -21,7 +21,7 @@ THEOREMS = [
     "pair_brackets", "collection_entries_bracket", "fallback_legacy_refuted", "fallback_legacy_always_raises",
 ]
 RULE = ("seeded generator: graphs with 1-7 vertices, connected or with 2-3 components (ties among largest components "
-        "included); each pair is passed in 4-6 variants drawn from containers {nested list, dense, csr, csc, lil, csr_array} x "
+        "included); each pair is passed in 4-6 variants drawn from containers {nested list, dense, csr, csc, lil, coo, dok, dia, bsr matrices, csr/coo/csc sparse arrays} x "
         "encodings {upper, lower, mixed orientation, symmetric, weighted symmetric} x {identity, random relabelling}; "
         "collections of 1-5 graphs (1 must raise); graphs whose diameter is exactly 126..129 and 254..256 (dtype boundaries) against a single vertex / an edge; non-trivial = some graph is "
         "disconnected, or >= 3 distinct representations of a pair with >= 3 vertices, or a collection of >= 3 graphs; "
@@ -40,6 +40,7 @@ ASSUMPTIONS = [
     "theorems about the fallback hold for ANY shortest-path result whose finiteness relation is an equivalence (and "
     "for any correct shortest-path answer, spec sp); the executable instance is proved to be one",
     "explicitly stored zeros in sparse inputs, NaN/inf entries and non-square inputs are outside the generator",
+    "the upper bound of a collection is random: each collection is run with several NumPy seeds",
     "lower-bound soundness inherits C05's explicit greedy-completeness hypothesis",
 ]
 COQ_DEPS = ["Corr/GraphCorr.vo"]
@@ -83,7 +84,9 @@ def _any_graph(rng, pdis, lo=1, hi=7):
 
 
 ENCODINGS = ["upper", "lower", "mixed", "symmetric", "weighted"]
-FORMATS = ["list", "dense", "csr", "csc", "lil", "csr_array"]   # scipy >= 1.15 csgraph rejects coo/dok itself
+# every container / sparsity format; coo, dok, dia, bsr and the sparse arrays raised ValueError inside scipy's csgraph
+# before /repo d1032fb converted sparse input with .tocsr()
+FORMATS = ["list", "dense", "csr", "csc", "lil", "csr_array", "coo", "dok", "dia", "bsr", "coo_array", "csc_array"]
 
 
 def _encode(rng, A, enc, perm):
@@ -164,9 +167,12 @@ def generate(rng, tier):
     for _ in range(n_coll):
         k = rng.choice([1, 2, 2, 3, 3, 4, 5])
         graphs = [_any_graph(rng, 0.25, 1, 5) for _ in range(k)]
+        if k >= 2 and rng.random() < 0.6:        # a non-vertex-transitive member (path / star / spider / tree)
+            graphs[rng.randrange(k)] = c05._graph(rng, rng.choice(["path", "star", "spider", "sparse"]), rng.randint(4, 6))
         enc = rng.choice(ENCODINGS)
         cases.append({"cls": "collection%d" % k, "kind": "coll", "fmt": rng.choice(FORMATS), "outer": rng.choice(["list", "tuple"]),
-                      "graphs": [_encode(rng, g, enc, None) for g in graphs], "seed": rng.randrange(2 ** 31)})
+                      "graphs": [_encode(rng, g, enc, None) for g in graphs], "seed": rng.randrange(2 ** 31),
+                      "seeds": [rng.randrange(2 ** 31) for _ in range(6)]})
     cases += _boundary_cases(rng, tier)
     return cases
 
@@ -238,7 +244,9 @@ def impl_run(cases):
             return [list(r) for r in A]
         if fmt == "dense":
             return a
-        return {"csr": sps.csr_matrix, "csc": sps.csc_matrix, "lil": sps.lil_matrix, "csr_array": sps.csr_array}[fmt](a)
+        return {"csr": sps.csr_matrix, "csc": sps.csc_matrix, "lil": sps.lil_matrix, "csr_array": sps.csr_array,
+                "coo": sps.coo_matrix, "dok": sps.dok_matrix, "dia": sps.dia_matrix, "bsr": sps.bsr_matrix,
+                "coo_array": sps.coo_array, "csc_array": sps.csc_array}[fmt](a)
 
     def watched(fn):
         with warnings.catch_warnings(record=True) as w:
@@ -269,8 +277,8 @@ def impl_run(cases):
                 vo.append({"dmG": dm(v["VG"], v["fmt"]), "dmH": dm(v["VH"], v["fmt"]), "gh": watched(call)})
             outs.append({"variants": vo})
         else:
-            def call():
-                np.random.seed(c["seed"])
+            def call(seed):
+                np.random.seed(seed)
                 As = [conv(g, c["fmt"]) for g in c["graphs"]]
                 if c["outer"] == "tuple":
                     As = tuple(As)
@@ -278,7 +286,9 @@ def impl_run(cases):
                 lbs, ubs = np.asarray(lbs), np.asarray(ubs)
                 return {"lbs": [[float(x) for x in r] for r in lbs], "ubs": [[float(x) for x in r] for r in ubs],
                         "shape": [list(lbs.shape), list(ubs.shape)]}
-            outs.append({"coll": watched(call)})
+            seeds = [c["seed"]] + list(c.get("seeds", []))
+            runs = [watched(lambda s=s: call(s)) for s in seeds]
+            outs.append({"coll": runs[0], "more": runs[1:]})
     return outs
 
 
@@ -348,8 +358,15 @@ def predicate(c, o):
         if len(ident_lbs) > 1:
             return False, "representation: identical labelings got different lower bounds %s" % sorted(ident_lbs)
         return True, ""
-    g = o["coll"]
     n = len(c["graphs"])
+    for g in [o["coll"]] + list(o.get("more", [])):
+        ok, detail = _coll_predicate(c, g, n)
+        if not ok:
+            return ok, detail
+    return True, ""
+
+
+def _coll_predicate(c, g, n):
     if n < 2:
         if g.get("error") != "ValueError":
             return False, "collection: a collection of %d graph(s) must raise ValueError, got %s" % (n, str(g)[:100])
